@@ -8,7 +8,7 @@ CONSTANTS
   HostAlpha <- T_HostAlpha
   FreeHostLen = 4
   Prefixes <- T_Prefixes
-  Alphabet <- Q_Alphabet
+  Alphabet <- T_Alphabet
   MaxSuffix = 5
 CONSTRAINT Emit
 INVARIANTS InvRoundTrip InvHostPort InvIdempotent InvCanonicalHP InvTotal
